@@ -616,3 +616,237 @@ Example parse_rejects_inner_sign :
   parse (b ".-5") = Err EParse /\ parse (b ".+5") = Err EParse /\ parse (b "-.+5") = Err EParse /\
   parse (b ".-0") = Err EParse /\ parse (b "+.-5") = Err EParse.
 Proof. repeat split; vm_compute; reflexivity. Qed.
+
+(* ------------------------------------------------------------------ *)
+(* Completeness: every literal of the grammar within the exponent      *)
+(* limits is accepted, with the expected representation                *)
+(* ------------------------------------------------------------------ *)
+
+(* exponent part as written in the source string: marker e or E *)
+Inductive exp_src : bytes -> bytes -> Z -> Prop :=
+| ExpSrcNone : exp_src [] [] 0
+| ExpSrcSome (mk : byte) (neg : bool) sgn ds :
+    mk = "e"%byte \/ mk = "E"%byte ->
+    (sgn = [] /\ neg = false \/ sgn = ["+"%byte] /\ neg = false \/ sgn = ["-"%byte] /\ neg = true) ->
+    ds <> [] -> forallb is_digit ds = true ->
+    exp_src (mk :: sgn ++ ds) ("e"%byte :: sgn ++ ds)
+            (if neg then - dec_digits_val ds else dec_digits_val ds).
+
+Lemma go_to_lower_digit c r : is_digit c = true -> go_to_lower (c :: r) = c :: go_to_lower r.
+Proof.
+  intro H. apply is_digit_cases in H.
+  repeat (destruct H as [H|H]; [subst c; reflexivity|]). subst c; reflexivity.
+Qed.
+
+Lemma go_to_lower_digits ds r : forallb is_digit ds = true -> go_to_lower (ds ++ r) = ds ++ go_to_lower r.
+Proof.
+  induction ds as [|c ds IH]; [reflexivity|]. cbn [forallb app]. intro H.
+  apply andb_true_iff in H. destruct H as [Hc Hd]. rewrite (go_to_lower_digit c _ Hc), (IH Hd). reflexivity.
+Qed.
+
+Lemma go_to_lower_exp exo exl e : exp_src exo exl e -> go_to_lower exo = exl.
+Proof.
+  intro H. destruct H as [|mk neg sgn ds Hmk Hs Hne Hd]; [reflexivity|].
+  assert (Hds : go_to_lower ds = ds).
+  { rewrite <- (app_nil_r ds) at 1. rewrite (go_to_lower_digits ds [] Hd). cbn. apply app_nil_r. }
+  destruct Hmk as [->| ->]; destruct Hs as [[-> _]|[[-> _]|[-> _]]]; cbn [app go_to_lower];
+    rewrite ?Hds; reflexivity.
+Qed.
+
+Lemma exp_src_lower exo exl e : exp_src exo exl e -> exp_part exl e.
+Proof. intro H. destruct H; [apply ExpNone|apply ExpSome; assumption]. Qed.
+
+Lemma parse_int32_ok (neg : bool) sgn ds :
+  (sgn = [] /\ neg = false \/ sgn = ["+"%byte] /\ neg = false \/ sgn = ["-"%byte] /\ neg = true) ->
+  ds <> [] -> forallb is_digit ds = true ->
+  let e := if neg then - dec_digits_val ds else dec_digits_val ds in
+  - 2 ^ 31 <= e < 2 ^ 31 -> parse_int32 (sgn ++ ds) = Some e.
+Proof.
+  intros Hs Hne Hd e He. subst e. destruct ds as [|d0 ds']; [congruence|].
+  pose proof (dec_digits_val_nonneg _ Hd) as Hnn.
+  destruct Hs as [[-> ->]|[[-> ->]|[-> ->]]]; cbn [app]; unfold parse_int32, all_digits.
+  - pose proof Hd as Hd0. cbn [forallb] in Hd0. apply andb_true_iff in Hd0. destruct Hd0 as [Hd0 _].
+    apply is_digit_cases in Hd0.
+    assert (Hlt : (dec_digits_val (d0 :: ds') <? 2 ^ 31) = true) by (apply Z.ltb_lt; lia).
+    repeat (destruct Hd0 as [Hd0|Hd0]; [subst d0; rewrite Hd; cbv zeta; rewrite Hlt; reflexivity|]).
+    subst d0; rewrite Hd; cbv zeta; rewrite Hlt; reflexivity.
+  - rewrite Hd. cbv zeta.
+    assert (Hlt : (dec_digits_val (d0 :: ds') <? 2 ^ 31) = true) by (apply Z.ltb_lt; lia).
+    rewrite Hlt. reflexivity.
+  - rewrite Hd. cbv zeta.
+    assert (Hle : (dec_digits_val (d0 :: ds') <=? 2 ^ 31) = true) by (apply Z.leb_le; lia).
+    rewrite Hle. reflexivity.
+Qed.
+
+Lemma index_byte_e_app m tl : forallb plainb m = true ->
+  index_byte "e"%byte (m ++ "e"%byte :: tl) = Some (List.length m).
+Proof.
+  induction m as [|a r IH]; cbn [forallb index_byte app List.length]; intro H; [reflexivity|].
+  apply andb_true_iff in H. destruct H as [Ha Hr]. rewrite (IH Hr).
+  destruct (Byte.eqb a "e"%byte) eqn:E; [|reflexivity].
+  apply byte_eqb_eq in E. subst a. discriminate Ha.
+Qed.
+
+(* mantissa stage on a well-formed mantissa *)
+Lemma parse_mantissa_ok neg ip fp (pt : bool) exps :
+  (pt = false -> fp = []) -> forallb is_digit ip = true -> forallb is_digit fp = true -> ip ++ fp <> [] ->
+  parse_mantissa neg (ip ++ (if pt then "."%byte :: fp else [])) exps =
+  finish neg (dec_digits_val (ip ++ fp)) (if pt then exps ++ [- Z.of_nat (List.length fp)] else exps).
+Proof.
+  intros Hpt Hi Hf Hne. unfold parse_mantissa. destruct pt.
+  - rewrite (index_byte_app "."%byte ip fp eq_refl Hi). rewrite firstn_len_app, skipn_S_len_app.
+    rewrite bigint_digits; [|exact Hne|rewrite forallb_app, Hi, Hf; reflexivity].
+    replace (Z.of_nat (List.length (ip ++ "."%byte :: fp)) - Z.of_nat (List.length ip) - 1)
+      with (Z.of_nat (List.length fp)) by (rewrite app_length; cbn [List.length]; lia).
+    reflexivity.
+  - rewrite (Hpt eq_refl) in *. rewrite !app_nil_r in *.
+    rewrite (index_byte_none "."%byte ip eq_refl Hi). rewrite (bigint_digits ip Hne Hi). reflexivity.
+Qed.
+
+(* parse_tail on a string that starts with a digit or the point *)
+Lemma parse_tail_body neg f r : is_digit f = true \/ f = "."%byte ->
+  parse_tail neg (f :: r) = parse_finite neg (f :: r).
+Proof.
+  intros [H| ->]; [|reflexivity]. apply is_digit_cases in H.
+  repeat (destruct H as [H|H]; [subst f; reflexivity|]). subst f; reflexivity.
+Qed.
+
+Lemma head_facts f r : is_digit f = true \/ f = "."%byte ->
+  has_prefix (b "-") (f :: r) = false /\ has_prefix (b "+") (f :: r) = false /\
+  trim_left_signs (f :: r) = f :: r.
+Proof.
+  intros [H| ->]; [|repeat split; reflexivity]. apply is_digit_cases in H.
+  repeat (destruct H as [H|H]; [subst f; repeat split; reflexivity|]). subst f; repeat split; reflexivity.
+Qed.
+
+Theorem parse_complete (neg : bool) sign ip fp (pt : bool) exo exl e :
+  (sign = [] /\ neg = false \/ sign = ["+"%byte] /\ neg = false \/ sign = ["-"%byte] /\ neg = true) ->
+  (pt = false -> fp = []) ->
+  forallb is_digit ip = true -> forallb is_digit fp = true -> ip ++ fp <> [] ->
+  exp_src exo exl e ->
+  (* exponent limits of the package: each of e and -|fp|, their sum, and the adjusted exponent *)
+  exp_in_limits e = true -> Z.of_nat (List.length fp) <= 100000 ->
+  exp_in_limits (e - Z.of_nat (List.length fp)) = true ->
+  min_exponent <= e - Z.of_nat (List.length fp) + num_digits (dec_digits_val (ip ++ fp)) - 1 <= max_exponent ->
+  parse (sign ++ ip ++ (if pt then "."%byte :: fp else []) ++ exo) =
+  Ok (mkDec neg (dec_digits_val (ip ++ fp)) (e - Z.of_nat (List.length fp))).
+Proof.
+  intros Hs Hpt Hi Hf Hne Hex Hle Hlf Hsum Hadj.
+  set (mant := ip ++ (if pt then "."%byte :: fp else [])).
+  set (body := ip ++ (if pt then "."%byte :: fp else []) ++ exo).
+  (* first byte of the body *)
+  assert (Hhead : exists f r, body = f :: r /\ (is_digit f = true \/ f = "."%byte) /\
+                   (f = "."%byte -> exists f2 r2, r = f2 :: r2 /\ is_digit f2 = true)).
+  { subst body. destruct ip as [|i0 ip'].
+    - destruct pt; [|rewrite (Hpt eq_refl) in Hne; cbn in Hne; congruence].
+      cbn [app]. destruct fp as [|f0 fp']; [cbn in Hne; congruence|].
+      exists "."%byte, ((f0 :: fp') ++ exo). split; [reflexivity|]. split; [right; reflexivity|].
+      intros _. exists f0, (fp' ++ exo). split; [reflexivity|].
+      cbn [forallb] in Hf. apply andb_true_iff in Hf. tauto.
+    - cbn [app]. eexists i0, _. split; [reflexivity|].
+      cbn [forallb] in Hi. apply andb_true_iff in Hi. destruct Hi as [Hi0 _]. split; [left; exact Hi0|].
+      intros ->. discriminate Hi0. }
+  destruct Hhead as (f & r & Hbody & Hf0 & Hdot).
+  destruct (head_facts f r Hf0) as (Hm & Hp & Htrim).
+  (* lower-casing *)
+  assert (Hlow : go_to_lower body = mant ++ exl).
+  { subst body mant. rewrite (go_to_lower_digits ip _ Hi). rewrite <- app_assoc. f_equal.
+    destruct pt; cbn [app].
+    - cbn [go_to_lower]. rewrite (go_to_lower_digits fp _ Hf), (go_to_lower_exp _ _ _ Hex). reflexivity.
+    - apply (go_to_lower_exp _ _ _ Hex). }
+  assert (Hlhead : exists r', mant ++ exl = f :: r').
+  { rewrite <- Hlow, Hbody. destruct Hf0 as [Hd| ->].
+    - rewrite (go_to_lower_digit f r Hd). eauto.
+    - cbn [go_to_lower]. eauto. }
+  destruct Hlhead as (r' & Hlb).
+  (* the stages of parse *)
+  rewrite parse_unfold. cbv zeta. fold body.
+  assert (Hnorm : norm_input (sign ++ body) = sign ++ body).
+  { rewrite Hbody. destruct Hs as [[-> _]|[[-> _]|[-> _]]]; reflexivity. }
+  rewrite Hnorm.
+  assert (Htr : trim_left_signs (sign ++ body) = body).
+  { rewrite Hbody. destruct Hs as [[-> _]|[[-> _]|[-> _]]]; cbn [app trim_left_signs]; exact Htrim. }
+  rewrite Htr.
+  assert (Hds : has_prefix (b ".+") body || has_prefix (b ".-") body = false).
+  { rewrite Hbody. destruct Hf0 as [Hd| ->].
+    - apply is_digit_cases in Hd.
+      repeat (destruct Hd as [Hd|Hd]; [subst f; reflexivity|]). subst f; reflexivity.
+    - destruct (Hdot eq_refl) as (f2 & r2 & -> & Hd2). apply is_digit_cases in Hd2.
+      repeat (destruct Hd2 as [Hd2|Hd2]; [subst f2; reflexivity|]). subst f2; reflexivity. }
+  rewrite Hds. cbv beta iota.
+  assert (Hstage : (let neg0 := has_prefix (b "-") (sign ++ body) in
+                    parse_tail neg0 (go_to_lower (if neg0 then skipn 1 (sign ++ body)
+                       else if has_prefix (b "+") (sign ++ body) then skipn 1 (sign ++ body) else sign ++ body)))
+                   = parse_tail neg (go_to_lower body)).
+  { destruct Hs as [[-> ->]|[[-> ->]|[-> ->]]]; cbn [app]; cbv zeta.
+    - rewrite Hbody, Hm, Hp. reflexivity.
+    - reflexivity.
+    - reflexivity. }
+  cbv zeta in Hstage. transitivity (parse_tail neg (go_to_lower body)); [exact Hstage|]. rewrite Hlow, Hlb.
+  rewrite parse_tail_body by exact Hf0. rewrite <- Hlb.
+  (* exponent and mantissa *)
+  assert (Hplain : forallb plainb mant = true).
+  { subst mant. rewrite forallb_app, (digits_plain ip Hi). destruct pt; [|reflexivity].
+    cbn [forallb]. rewrite (digits_plain fp Hf). reflexivity. }
+  rewrite parse_finite_unfold.
+  assert (Hlim_f : exp_in_limits (- Z.of_nat (List.length fp)) = true).
+  { unfold exp_in_limits, min_exponent, max_exponent. apply andb_true_iff. split; apply Z.leb_le; lia. }
+  destruct Hex as [|mk eneg sgn ds Hmk Hsg Hdne Hdd].
+  - (* no exponent *)
+    rewrite app_nil_r. rewrite (index_byte_e_plain mant Hplain).
+    subst mant. rewrite (parse_mantissa_ok neg ip fp pt [] Hpt Hi Hf Hne).
+    destruct pt.
+    + cbn [app]. rewrite finish_ok; rewrite ?zsum_single.
+      * f_equal.
+      * apply dec_digits_val_nonneg. rewrite forallb_app, Hi, Hf. reflexivity.
+      * cbn [forallb]. rewrite Hlim_f. reflexivity.
+      * exact Hlim_f.
+      * replace (- Z.of_nat (List.length fp)) with (0 - Z.of_nat (List.length fp)) by lia. exact Hadj.
+    + rewrite (Hpt eq_refl) in *. cbn [List.length] in *. rewrite Z.sub_0_r in *. rewrite finish_ok.
+      * reflexivity.
+      * apply dec_digits_val_nonneg. rewrite forallb_app, Hi. reflexivity.
+      * reflexivity.
+      * reflexivity.
+      * exact Hadj.
+  - (* exponent *)
+    set (ev := if eneg then - dec_digits_val ds else dec_digits_val ds) in *.
+    rewrite (index_byte_e_app mant (sgn ++ ds) Hplain).
+    rewrite firstn_len_app, skipn_S_len_app.
+    assert (Hrange : - 2 ^ 31 <= ev < 2 ^ 31).
+    { unfold exp_in_limits, min_exponent, max_exponent in Hle. apply andb_true_iff in Hle.
+      destruct Hle as [L1 L2]. apply Z.leb_le in L1. apply Z.leb_le in L2. lia. }
+    rewrite (parse_int32_ok eneg sgn ds Hsg Hdne Hdd Hrange). fold ev.
+    subst mant. rewrite (parse_mantissa_ok neg ip fp pt [ev] Hpt Hi Hf Hne).
+    destruct pt.
+    + rewrite finish_ok.
+      * f_equal. f_equal. unfold zsum. cbn [app fold_left]. lia.
+      * apply dec_digits_val_nonneg. rewrite forallb_app, Hi, Hf. reflexivity.
+      * cbn [app forallb]. rewrite Hle, Hlim_f. reflexivity.
+      * replace (zsum ([ev] ++ [- Z.of_nat (List.length fp)])) with (ev - Z.of_nat (List.length fp))
+          by (unfold zsum; cbn [app fold_left]; lia). exact Hsum.
+      * replace (zsum ([ev] ++ [- Z.of_nat (List.length fp)])) with (ev - Z.of_nat (List.length fp))
+          by (unfold zsum; cbn [app fold_left]; lia). exact Hadj.
+    + rewrite (Hpt eq_refl) in *. cbn [List.length] in *. rewrite Z.sub_0_r in *. rewrite finish_ok.
+      * rewrite zsum_single. reflexivity.
+      * apply dec_digits_val_nonneg. rewrite forallb_app, Hi. reflexivity.
+      * cbn [forallb]. rewrite Hle. reflexivity.
+      * rewrite zsum_single. exact Hle.
+      * rewrite zsum_single. exact Hadj.
+Qed.
+
+Example parse_complete_ex :
+  parse (b "-12.50E+3") =
+  Ok (mkDec true (dec_digits_val (b "12" ++ b "50")) (3 - Z.of_nat (List.length (b "50")))).
+Proof.
+  apply (parse_complete true (b "-") (b "12") (b "50") true (b "E+3") (b "e+3") 3).
+  - right; right; split; reflexivity.
+  - discriminate.
+  - reflexivity.
+  - reflexivity.
+  - discriminate.
+  - apply (ExpSrcSome "E"%byte false (b "+") (b "3")); [right; reflexivity|right; left; split; reflexivity|discriminate|reflexivity].
+  - reflexivity.
+  - cbn. lia.
+  - reflexivity.
+  - vm_compute. split; discriminate.
+Qed.
